@@ -478,9 +478,7 @@ func (e *Encoder) encodeLong(b *big.Int) error {
 
 func (e *Encoder) encodeMap(m reflect.Value) error {
 
-	keys := m.MapKeys()
-
-	l := len(keys)
+	l := m.Len()
 
 	// protocol >= 1: ø dict -> EMPTY_DICT
 	if e.config.Protocol >= 1 && l == 0 {
@@ -495,14 +493,14 @@ func (e *Encoder) encodeMap(m reflect.Value) error {
 		return err
 	}
 
-	for _, k := range keys {
-		err = e.encode(k)
+	// NOTE MapRange, not MapKeys + MapIndex: looking a NaN key up again never finds it
+	for mi := m.MapRange(); mi.Next(); {
+		err = e.encode(mi.Key())
 		if err != nil {
 			return err
 		}
-		v := m.MapIndex(k)
 
-		err = e.encode(v)
+		err = e.encode(mi.Value())
 		if err != nil {
 			return err
 		}
